@@ -30,6 +30,7 @@ from control import freqplot as _fp
 
 from core.runner import Family, Verdict, AGREE, VIOLATES, DIFFERS, canon
 from core.exact import fr, tok
+from families.c13_arg import hypotheses_label   # C13-argprinciple: hypotheses of C13Arg.count_continuous
 
 F = Fraction
 PI_TOK = tok(fr(math.pi))
@@ -205,11 +206,17 @@ def finite(a):
 # ----------------------------------------------------------------------------
 class C13(Family):
     prop = "C13"
+    extra_modules = ["CtrlVerif.Props.C13Arg"]   # argument principle on the imaginary axis (H1, H3 discharged)
     externals = ["numpy.angle (quadrant contract checked per sample)", "numpy.sqrt", "numpy.log / numpy.exp "
                  "(discrete-time contour mapping)", "poles() of the loop and of the closed loop "
                  "(numpy.roots / eigvals)", "evaluation of the loop on the contour (C04)",
                  "_default_frequency_range (the grid itself is an input of the model)"]
-    assumptions = ["argument principle for the indented half contour (hypothesis of count_partial)",
+    assumptions = ["argument principle (H3 of count_partial): PROVED for continuous-time loops without poles on "
+                   "the imaginary axis and an unindented contour (C13Arg.count_continuous); still a hypothesis for "
+                   "the indented contour (poles on / within indent_radius of the axis) and for discrete time",
+                   "adequacy of the default frequency grid for C13Arg.count_continuous: phase steps of Phi < pi (H2) "
+                   "and tail bound at the last grid point; evaluated per case on the implementation's contour "
+                   "(histogram argprinciple_hyp), not proved",
                    "sampling hypothesis: consecutive samples of 1+L turn by less than pi "
                    "(hypothesis of discrete_winding; validated, not proved, by count == Z-P)",
                    "IEEE arithmetic not modelled: the integer count is compared exactly, guarded by the "
@@ -635,6 +642,10 @@ class C13(Family):
         st["moved_points"] = min(model.get("moved", -1), 1) if "_pts" in model else "n/a"
         st["count_checked"] = "count" in model
         st["warned"] = impl["warn_criterion"]
+        hyp = hypotheses_label(case, self.obs(case))   # C13Arg.count_continuous: H2 + tail on the real contour
+        st["argprinciple_hyp"] = hyp
+        if hyp == "hold":
+            st["argprinciple_hyp=hold:count==Z-P"] = impl["count"] == impl["Z"] - impl["P"]
         return st
 
     def shrink(self, case):
